@@ -10,6 +10,9 @@ impl Slab {
     pub(crate) fn folo_verif_layout(&self) -> SlabLayout {
         self.layout
     }
+    pub(crate) fn folo_verif_drop_policy(&self) -> DropPolicy {
+        self.drop_policy
+    }
     /// `Some(next)` if slot `index` is vacant, `None` if occupied. `index < capacity`.
     pub(crate) fn folo_verif_slot_vacant_next(&self, index: usize) -> Option<usize> {
         // SAFETY: caller passes index < capacity; slots are always initialised SlotMeta values.
